@@ -1,12 +1,44 @@
 /-
-Driver commands of property C17 (core Lean only).  Command names start with "c17.".
+Driver commands of property C17 (core Lean only).
+Chunk list syntax: `f:b-f:b,f:b-f:b` (begin-end, file:block), `-` for the empty list.
 -/
 import Hts.Drv.Util
+import Hts.Model.Merge
 namespace Hts.Drv.C17
-open Hts.Drv
+open Hts.Drv Hts.Model.Merge
+
+def parseOffset (s : String) : Option Offset :=
+  match s.splitOn ":" with
+  | [f, b] => do some ⟨← parseInt f, ← parseNat b⟩
+  | _ => none
+
+/-- split "a-b" at the '-' that separates two offsets; file offsets may be negative ("-3:0--2:5") -/
+def parseChunk (s : String) : Option Chunk :=
+  -- the separator is the first '-' that follows a digit
+  let cs := s.toList
+  let rec go (pre : List Char) (rest : List Char) : Option (String × String) :=
+    match rest with
+    | [] => none
+    | c :: rest' =>
+      if c == '-' && !pre.isEmpty && pre.head!.isDigit then some (String.ofList pre.reverse, String.ofList rest')
+      else go (c :: pre) rest'
+  match go [] cs with
+  | some (a, b) => do some ⟨← parseOffset a, ← parseOffset b⟩
+  | none => none
+
+def parseChunks (s : String) : Option (List Chunk) :=
+  if s == "-" then some [] else (s.splitOn ",").mapM parseChunk
+
+def showOffset (o : Offset) : String := s!"{o.file}:{o.block}"
+def showChunks (cs : List Chunk) : String :=
+  if cs.isEmpty then "-" else ",".intercalate (cs.map fun c => s!"{showOffset c.b}-{showOffset c.e}")
 
 def handle (cmd : String) (args : List String) : Option String :=
   match cmd, args with
+  | "c17.identity", [cs] => do some (showChunks (identity (← parseChunks cs)))
+  | "c17.adjacent", [cs] => do some (showChunks (adjacent (← parseChunks cs)))
+  | "c17.squash", [cs] => do some (showChunks (squash (← parseChunks cs)))
+  | "c17.compressor", [near, cs] => do some (showChunks (compressor (← parseInt near) (← parseChunks cs)))
   | _, _ => none
 
 end Hts.Drv.C17
